@@ -50,6 +50,8 @@ type Session struct {
 	unixTerms map[string]bool
 	suppressObl bool
 	scanReal map[string]bool
+	litCells map[string]map[int]Val
+	litSlices map[string]map[int]Val
 	scanRoots map[string][]T
 	tagIsRef []bool
 	lastTxn T
@@ -59,7 +61,7 @@ type Session struct {
 
 func newSession(eng *Engine, name string) *Session {
 	s := &Session{eng: eng, Name: name, declared: map[string]bool{}, strLits: map[string]int{"": 0}, strList: []string{""}, typeTags: map[string]int{},
-		notes: map[string]bool{}, inlined: map[string]bool{}, used: map[string]bool{}, oblNames: map[string]int{}, shiftKs: map[int]bool{}, ifaceOrigin: map[string]ifaceOrg{}, unixTerms: map[string]bool{}, getKeys: map[string]T{}}
+		notes: map[string]bool{}, inlined: map[string]bool{}, used: map[string]bool{}, oblNames: map[string]int{}, shiftKs: map[int]bool{}, ifaceOrigin: map[string]ifaceOrg{}, unixTerms: map[string]bool{}, getKeys: map[string]T{}, litCells: map[string]map[int]Val{}, litSlices: map[string]map[int]Val{}}
 	return s
 }
 
